@@ -31,18 +31,27 @@ MANIFEST = dict(
          "subtree; a language off everywhere writes nothing; the C and Fortran emitters run before and independently of the "
          "Python/Lua flags. Table theorems over regenerated AST scans: write sites paired with cfiles/ffiles appends, emitters "
          "write only into their own directories, emitter order, the wrap defaults, every wrap.assign site of generate.py is "
-         "one the model has, every direct wrap.<lang> write switches a language off. The model is tied to the code by "
+         "one the model has, every direct wrap.<lang> write switches a language off. The consumer loops of the four emitters over a "
+         "container's function list are modelled (Lua overload grouping, Python overloaded_methods table and multi-dispatch, Fortran "
+         "per-function loops and generic-interface lists, the per-function guard of C/Python) and proved for every function list: a "
+         "member of an emitted group / a function with a wrapper of its own has its OWN flag on, in whatever position of the overload "
+         "set, every function whose flag is on is emitted, and the Lua loop is filter-then-group. The model is tied to the code by "
          "differential correspondence: WrapFlags operation sequences, promotion of real trees, every clone step and every "
          "node construction observed in real runs on generated libraries (incl. fortran_generic, templates, assumed rank, "
-         "return_this, strings, F_CFI on/off, overrides at every level) replayed on the compiled model. An implementation-only "
+         "return_this, strings, F_CFI on/off, overrides at every level) replayed on the compiled model; the consumer-loop model is "
+         "compared with the observed loops (arguments of Wrapl.wrap_function, Wrapp.overloaded_methods, Wrapf impl/interface calls and "
+         "generic lists) and with the emitted files of libraries with overload sets (free functions and methods) whose members carry "
+         "per-declaration options in every position, all on/off patterns per language. An implementation-only "
          "oracle checks listings, --cfiles/--ffiles, directories, byte identity of C/Fortran files over all flag combinations, "
          "overrides at function/method/class/namespace level, the selection stated on the command line (--option, both "
-         "spellings), and that no function or clone is wrapped for a language its declaration switches off.",
+         "spellings), that no function or clone is wrapped for a language its declaration switches off, and for every member of an "
+         "overload set that it is in a language's files iff its own option for that language is on.",
     design="3 C15, 9.4, 9.9",
     note="Trusted: Lean kernel; translator AST scans (tools/extract_flags.py); hand-written flags model validated on generated "
          "libraries only; the step spy takes 'which clones were appended' (count/tags) and two content facts computed from the "
-         "declaration's types as inputs and compares the flags. 'Every consumer honours wrap.L' is established by the oracle "
-         "(exploration), not proved.",
+         "declaration's types as inputs and compares the flags. 'Every consumer honours wrap.L': the loops over a container's "
+         "functions are modelled and proved (tools/flaggroups.py ties them to observed calls and emitted files); that the body of each "
+         "wrap_function emits nothing for other functions, and the enum/typedef/variable consumers, are established by the oracle only.",
     technique="Lean 4 proof (tree induction, mutual induction over generation histories, decide +kernel over regenerated tables) "
               "+ differential correspondence (compiled model driver) + directory oracle",
 )
@@ -71,7 +80,21 @@ THEOREMS = {
         "Shroud.Flags.direct_writes_only_switch_off",
         "Shroud.Flags.clear_sites",
         "Shroud.Flags.container_guards_on_the_member",
-    ]
+    ],
+    "ShroudVerif.Props.C15Groups": [
+        "Shroud.Flags.groupLoop_members",
+        "Shroud.Flags.groupLoop_complete",
+        "Shroud.Flags.groupLoop_is_filter_then_group",
+        "Shroud.Flags.lua_emitted_members_on",
+        "Shroud.Flags.lua_on_member_emitted",
+        "Shroud.Flags.lua_filter_then_group",
+        "Shroud.Flags.py_dispatch_members_on",
+        "Shroud.Flags.py_on_member_in_table",
+        "Shroud.Flags.fortran_generic_members_on",
+        "Shroud.Flags.fortran_on_member_in_generic",
+        "Shroud.Flags.wrapped_iff_own_flag",
+        "Shroud.Flags.wrapped_sublist",
+    ],
 }
 
 KINDS = ("c", "fortran", "python", "lua")
@@ -247,15 +270,19 @@ def run(ctx):
         "every wrap.assign / wrap.clear / direct wrap.<lang> write of generate.py, loop guards of every emitter's wrap_namespace)",
         "hand-written model Model/Flags.lean of WrapFlags, node construction (scope-chain lookup of the wrap options), every "
         "clone-making step of GenFunctions, PromoteWrap and driver gating; validated on generated libraries only",
+        "tools/flaggroups.py: spies on the emitters' function loops; a member is found in the files by its suffixed name / argument name",
         "tools/flagcorr.py step spy: takes which clones a step appended (count, tags) and two content facts computed from the "
         "declaration's types as inputs; compares all flags with the model",
     ]
     ctx.cov["rule"] = ("flag correspondence: WrapFlags operation sequences; every node's flags at construction; every clone-making step "
                        "observed in real runs (distinct requests); promotion of every real tree after generate_functions; oracle: libraries x "
                        "all valid library-level flag combinations (Fortran only with C; also stated through --option) x per-declaration overrides "
-                       "(function, method, class, namespace, enumeration) x assignments of the output-directory options; non-trivial = the run "
+                       "(function, method, class, namespace, enumeration) x assignments of the output-directory options; overload sets x all on/off "
+                       "patterns of the members per language (library on / members off and library off / members on); non-trivial = the run "
                        "wrote files of >= 2 kinds or used an override; distinct = (library, flags, override)")
-    ctx.assumptions += ["'every emitter consults wrap.L for every declaration' is checked by the oracle on generated libraries, not proved"]
+    ctx.assumptions += ["the loops over a container's functions (overload grouping, multi-dispatch table, generic interfaces, per-function "
+                        "guards) are modelled and proved; for enumerations, typedefs, variables and the bodies of the wrap_function "
+                        "methods 'the emitter consults wrap.L' is checked by the oracle on generated libraries, not proved"]
 
     work = common.scratch()
     try:
